@@ -83,7 +83,7 @@ def _judge(text, mode, reused, tmpdir, viols, counts, distinct, oracle=None):
         with open(path, "wb") as fp:
             fp.write(text)
         kw["via_file"] = path
-    obs = seams.run_parse(arg, parser=reused, want_tree=False, **kw)
+    obs = seams.run_parse(arg, parser=reused, want_tree=(oracle is E.oracle_c03), **kw)
     counts[0] += 1
     c = E.Case()
     c.word = None
@@ -103,7 +103,7 @@ def _judge(text, mode, reused, tmpdir, viols, counts, distinct, oracle=None):
 def byte_task(t):
     idx, double, with_modes = t[:3]
     # the same neighbourhoods under another property's oracle (C01: verdict against the reference recogniser)
-    oracle = {"c01": E.oracle_c01}[t[3]] if len(t) > 3 else None
+    oracle = {"c01": E.oracle_c01, "c03": E.oracle_c03}[t[3]] if len(t) > 3 else None
     ns = seams.load()
     s = CORPUS[idx]
     viols = []
@@ -213,7 +213,7 @@ def _c02_light(c, nl, family, n):
 def run(tier, seed):
     tasks = PC.make_tasks(tier, seed, ORACLES, layouts=["comments"], layout_depth=1, include_noreq=True)
     results = pool.run_tasks("checks.parser_common:task", tasks)
-    results += pool.run_tasks("checks.parser_common:valid_task", PC.valid_tasks(tier, seed, ORACLES, post="reuse"))
+    results += pool.run_tasks("checks.parser_common:valid_task", PC.valid_tasks(tier, seed, ORACLES, post="reuse", layouts=["upper"], edit_layouts=["rawcomments"]))
     results += pool.run_tasks("checks.parser_common:comment_task", PC.comment_tasks(tier, ORACLES))
     cov, viols, harness = PC.assemble(results)
     viols = [v for v in viols if v["property"] == "C02"]
